@@ -102,6 +102,30 @@ func copyDirGo(src, dst string) error {
 	return nil
 }
 
+// dataExtent returns the end of the last data segment of f (SEEK_DATA=3 / SEEK_HOLE=4).
+func dataExtent(f *os.File) int64 {
+	st, err := f.Stat()
+	if err != nil {
+		return 0
+	}
+	size := st.Size()
+	extent := int64(0)
+	off := int64(0)
+	for off < size {
+		d, err := syscall.Seek(int(f.Fd()), off, 3)
+		if err != nil {
+			break
+		}
+		h, err := syscall.Seek(int(f.Fd()), d, 4)
+		if err != nil {
+			h = size
+		}
+		extent = h
+		off = h
+	}
+	return extent
+}
+
 func copyFileSparse(src, dst string) error {
 	f, err := os.Open(src)
 	if err != nil {
@@ -115,21 +139,7 @@ func copyFileSparse(src, dst string) error {
 	size := st.Size()
 	extent := size
 	if size >= 1<<20 {
-		// data extent = end of the last data segment (SEEK_DATA=3 / SEEK_HOLE=4)
-		extent = 0
-		off := int64(0)
-		for off < size {
-			d, err := syscall.Seek(int(f.Fd()), off, 3)
-			if err != nil {
-				break
-			}
-			h, err := syscall.Seek(int(f.Fd()), d, 4)
-			if err != nil {
-				h = size
-			}
-			extent = h
-			off = h
-		}
+		extent = dataExtent(f)
 	}
 	buf := make([]byte, extent)
 	if _, err := io.ReadFull(io.NewSectionReader(f, 0, extent), buf); err != nil && extent > 0 {
